@@ -4,6 +4,7 @@ d=$(readlink -f $1); id=$2; runs=${3:-40000}
 trap 'git -C /repo checkout -- . 2>/dev/null' EXIT INT TERM
 git -C /repo apply "$d" || { echo "APPLY FAILED $d"; exit 3; }
 ( cd /verif/dsim && cargo build --release --offline 2>/verif/work/build.log ) || { echo "BUILD FAILED"; tail -20 /verif/work/build.log; exit 3; }
+if [ "$id" = "C16" ]; then ( cd /verif/dsim && cargo build --release --offline --no-default-features --target-dir target-nopb 2>/verif/work/build.log ) || { echo "BUILD FAILED"; tail -20 /verif/work/build.log; exit 3; }; fi
 VERIF_TIMEOUT_S=120 VERIF_DIR=/verif/work/mut timeout 300 /verif/dsim/target/release/dsim check $id --runs $runs --no-evidence | grep -E "^VIOLATION|^\s+\[|HARNESS|^C[0-9]+ " | cut -c1-260
 rc=${PIPESTATUS[0]}
 echo "== $(basename $d) $id exit=$rc"
